@@ -79,6 +79,22 @@ let rec judge _name ins outs =
        | None ->
          let kept = List.filter (fun (_, skip, _) -> not skip) stripped in
          judge _name ("SEQ" :: List.map (fun (o, _, _) -> o) kept) (List.map (fun (_, _, x) -> x) kept))
+  | "SLOW" :: optoks0 ->
+      (* B<id>:<st> starts a response whose body is still streaming (answer "b"),
+         R ends it: the response is recorded at R.  Nothing in between may wait
+         for that body. *)
+      if List.mem "BLOCKED" outs then
+        VPropfail ("log_not_blocked_by_streaming_body",
+                   "an operation did not return while another connection's response body was still being read: " ^ String.concat "_" outs)
+      else
+      let pairs = (try List.combine optoks0 outs with Invalid_argument _ -> []) in
+      if pairs = [] then VDisagree "output-shape" else
+      let pending = ref "" in
+      let kept = List.filter_map (fun (o, x) ->
+          if o.[0] = 'B' then begin pending := "S" ^ String.sub o 1 (String.length o - 1); (if x = "b" then None else Some ("E", "badb")) end
+          else if o = "R" then Some (!pending, x)
+          else Some (o, x)) pairs in
+      judge _name ("SEQ" :: List.map fst kept) (List.map snd kept)
   | ("SEQ" | "HTTP") :: optoks0 when List.exists (fun x -> ends_with x "!mutated") outs ->
       let k = ref (-1) in
       List.iteri (fun i x -> if !k < 0 && ends_with x "!mutated" then k := i) outs;
